@@ -247,7 +247,7 @@ func (s *server) serve() {
 			if change {
 				select {
 				case <-s.announceGo:
-				case <-time.After(25 * time.Second):
+				case <-time.After(60 * time.Second):
 				}
 				// announce the new capability set and let the client process it: from here on it
 				// is the advertised set for every command whose bytes are written later
@@ -369,7 +369,7 @@ func runCase(w *hx.W, rng *rand.Rand, cfg capCfg) {
 		go func() { ch <- f() }()
 		select {
 		case <-ch:
-		case <-time.After(25 * time.Second):
+		case <-time.After(60 * time.Second):
 			hung = true
 			hangs++
 			w.Violation("command-hangs@"+name+"/"+cfg.name, fmt.Sprintf("%s did not complete against a conformant scripted server (caps %s); steps %v", name, cfg.caps, steps), nil)
@@ -440,7 +440,7 @@ func runCase(w *hx.W, rng *rand.Rand, cfg capCfg) {
 			close(srv.announceGo)
 			select {
 			case <-srv.idleAnnounced:
-			case <-time.After(25 * time.Second):
+			case <-time.After(60 * time.Second):
 			}
 			wait("IDLE(end)", func() error {
 				if err := idle.Close(); err != nil {
@@ -450,7 +450,7 @@ func runCase(w *hx.W, rng *rand.Rand, cfg capCfg) {
 			})
 			select {
 			case <-queued:
-			case <-time.After(25 * time.Second):
+			case <-time.After(60 * time.Second):
 				if !hung {
 					hung = true
 					hangs++
@@ -561,7 +561,7 @@ func runCase(w *hx.W, rng *rand.Rand, cfg capCfg) {
 		if err != nil {
 			w.Violation("connection-unusable/"+cfg.name, fmt.Sprintf("NOOP at the end of the dialogue failed: %v (steps %v)", err, steps), nil)
 		}
-	case <-time.After(40 * time.Second):
+	case <-time.After(90 * time.Second):
 		w.Violation("command-hangs@final-NOOP/"+cfg.name, fmt.Sprintf("final NOOP did not complete; steps %v", steps), nil)
 	}
 	c.Close()
